@@ -14,7 +14,7 @@ import time
 from .. import planlib, simclock, world
 from ..catalogue import encode, mk_candles
 from ..core import Discard, LibError, Violation, run_property
-from ..subjects import ROUTES, build_route
+from ..subjects import ROUTES, Neighbours, build_route
 from ..util import candle_full, sub_rng, tf_seconds
 
 ID = "C18"
@@ -87,7 +87,11 @@ def plan(seed, subbatch):
                        "lifespan_s": (tf_s * cfg.randint(2, 12) if cfg.random() < 0.25 else None),
                        # the simulated wall clock: a live feed handled `lag` seconds after each arrival's newest
                        # candle, or (None) a replay of old data long after the fact
-                       "clock_lag_s": sub_rng(seed, "clock").choice((1, 1, base_s, tf_s, 3 * 3600, None))},
+                       "clock_lag_s": sub_rng(seed, "clock").choice((1, 1, base_s, tf_s, 3 * 3600, None)),
+                       # another manager alive in the same process, built first over the same stream moved by an
+                       # hour or half an hour (the size of the panel zones' offset changes)
+                       "neighbours": ([{"tf": tf, "shift_s": sub_rng(seed, "neighbours").choice((-3600, 3600, -1800, 1800))}]
+                                      if sub_rng(seed, "neighbours-p").random() < 0.3 else [])},
             "ops": [{"op": "new", "preload": pre}] + ops, "fired": dict(fired)}
 
 
@@ -113,6 +117,7 @@ def _run_under(run, trace, zone, count_budget):
                 if kind == "new":
                     rows = op.get("preload") or []
                     delivered.extend(rows)
+                    neigh = Neighbours(cfg.get("neighbours"), rows)
                     span_n = (rows[-1][0] - rows[0][0]) // tf_seconds(tf) if rows else 0
                     subject, _m, view = run.call(len(rows) * 2 + span_n, build_route, route, tf, rows,
                                                  bool(cfg.get("fill")), cfg.get("lifespan_s"))
@@ -127,6 +132,7 @@ def _run_under(run, trace, zone, count_budget):
                         out.append(None)
                         continue
                     delivered.extend(rows)
+                    neigh.feed(rows)
                     span_n = (delivered[-1][0] - delivered[0][0]) // tf_seconds(tf)
                     run.call(len(delivered) * 2 + span_n, subject.append,
                              encode(rows, cfg.get("enc") or "candles") if rows else [])
